@@ -736,6 +736,13 @@ def copy_tables(root):
                 if isinstance(node, ast.Call) and isinstance(node.func, ast.Attribute) and isinstance(node.func.value, ast.Call) \
                         and ast.unparse(node.func.value) == "shallow_copy(self)":
                     accs.append(f"  ({cstr(cls + '.' + name)}, {cstr(node.func.attr)})")
+            # second form:  copy = shallow_copy(self); copy._parameters = copy._parameters.copy(); return copy.<setter>_(...)
+            stm = [ast.unparse(b) for b in ast.walk(fn) if isinstance(b, (ast.Assign, ast.Return))]
+            if "copy = shallow_copy(self)" in stm and "copy._parameters = copy._parameters.copy()" in stm:
+                for node in ast.walk(fn):
+                    if isinstance(node, ast.Return) and isinstance(node.value, ast.Call) and isinstance(node.value.func, ast.Attribute) \
+                            and isinstance(node.value.func.value, ast.Name) and node.value.func.value.id == "copy":
+                        accs.append(f"  ({cstr(cls + '.' + name)}, {cstr('own _parameters; ' + node.value.func.attr)})")
         if cls == "SpatialTransform":
             cp = methods["__copy__"]
             loops = [n for n in ast.walk(cp) if isinstance(n, ast.For)]
